@@ -3,7 +3,7 @@
    theorems apply to it without further hypothesis: a retrieval on any document returns exactly the
    results of the specification Spec.sp, or — exactly when the specification selects nothing — the
    error of the specification ErrSpec.serr; it never panics. *)
-From JP Require Import Peg Grammar Text Tree Actions Eval WF Spec ErrSpec EvalInv1 EvalInv3 EvalInv4 EvalTop
+From JP Require Import Peg Grammar Text Tree Actions Eval WF Spec ErrSpec ErrFacts ErrReal EvalInv1 EvalInv3 EvalInv4 EvalTop
                        Refine1 Refine2 RefineTop ErrRefine ErrTop StackRules FuelRules.
 Open Scope list_scope.
 
@@ -47,5 +47,19 @@ Section E2E.
       + exact He.
     - exact I.
     - destruct (parse_total cfg parse_float regex_ok input) as [[t Ht]|[e He]]; congruence.
+  Qed.
+  (* the error of a failing retrieval on a parsed tree: a real failure event, on a step of the path, the deepest *)
+  Theorem retrieve_error_end_to_end input t doc st e : parse input = ParseOk t -> small doc -> ok st ->
+    fst (eval_run t doc st) = OErr e ->
+    In e (events ffun afun regex_match t doc (Some [], doc)) /\
+    In (err_basic e) (basics t) /\
+    (forall x, In x (events ffun afun regex_match t doc (Some [], doc)) -> depth_len e <= depth_len x)%nat /\
+    (is_type_err e = true ->
+     forall x, In x (events ffun afun regex_match t doc (Some [], doc)) -> depth_len x = depth_len e -> is_type_err x = true).
+  Proof.
+    intros Hp Hs Hok Hr.
+    apply (eval_run_error_real ffun afun regex_match ffun_small afun_small t doc st e); try assumption.
+    - exact (parse_builds_wf cfg parse_float regex_ok input t Hp).
+    - exact (parse_builds_ctext_ok cfg parse_float regex_ok input t Hp).
   Qed.
 End E2E.
